@@ -224,9 +224,13 @@ class Check:
                 # (some channels exist for 6 qubits only: S04); rep 0: 2-4, rep 1: 5/6, rep 2: 6, then all five in turn
                 n = [2, 3, 4][(k + self.seed) % 3] if rep == 0 else ([5, 6][(k + self.seed) % 2] if rep == 1 else
                                                                       (6 if rep == 2 else 2 + (k + rep + self.seed) % 5))
-                out.append({"mode": "generate", "batch": "K5", "i": i, "tier": self.tier, "op": opname, "n": n,
-                            "seed": run_seed(self.seed, self.tier, "K5", i), "keep": i < 4, "want_events": True})
-                i += 1
+                # ops with a documented in-place effect get three templates per repetition: they are the ones that
+                # must invalidate whatever an object memoises about itself
+                for extra in range(3 if OPS[opname].inplace else 1):
+                    out.append({"mode": "generate", "batch": "K5", "i": i, "tier": self.tier, "op": opname,
+                                "n": n if extra == 0 else 2 + (k + rep + extra + self.seed) % 5,
+                                "seed": run_seed(self.seed, self.tier, "K5", i), "keep": i < 4, "want_events": True})
+                    i += 1
         # K6: every shipped table x faults at seeded points
         nread, nintr = self.plan["k6"]
         nread = max(1, int(round(nread * self.scale)))
